@@ -4,7 +4,7 @@ from hypothesis import strategies as st
 from ECAgent.Core import Agent, Environment, Model, ComponentNotFoundError
 from ECAgent.Environments import SpaceWorld
 from vf.engine import Violation, InvalidCase
-from vf.fixtures import CompA, CompB, CompC, CompD, CompF, check, expect_raises, sized_lists, wone_of
+from vf.fixtures import maybe_complete, with_done, CompA, CompB, CompC, CompD, CompF, check, expect_raises, sized_lists, wone_of
 
 PROPERTY = "C20"
 BUDGET = {"quick": 4000, "thorough": 12000}
@@ -144,6 +144,7 @@ def _run(case, model):
 
     verify("fresh tree")
     for k, op in enumerate(case["ops"]):
+        maybe_complete(case, k, model, labels)
         kind = op["op"]
         ci = targets[int(op.get("cls", 0)) % len(targets)]
         cls = classes[ci]
@@ -201,9 +202,15 @@ def _run(case, model):
         elif kind == "subclass":
             if len(classes) >= 12:
                 continue
-            classes.append(type(f"L{len(classes)}", (cls,), body if body is not None else {}))       # a class defined AFTER its ancestors were modified
+            clone = bool(op.get("clone")) and ci >= 3
+            if clone:       # a class re-created from another class's namespace (class decorators and copy helpers do this): a separate class,
+                classes.append(type(cls)(f"L{len(classes)}", cls.__bases__, dict(vars(cls))))         # a sibling with nothing attached
+            else:
+                classes.append(type(f"L{len(classes)}", (cls,), body if body is not None else {}))       # a class defined AFTER its ancestors were modified
             ni = len(classes) - 1
-            parents[ni] = ci
+            parents[ni] = parents[ci] if clone else ci
+            if clone:
+                labels.add("cloned-class" + ("-of-modified" if (comps[ci] or tags[ci]) else ""))
             comps[ni] = {}
             tags[ni] = 0
             targets.append(ni)
@@ -260,12 +267,12 @@ def strategy(tier):
         st.fixed_dictionaries({"op": st.just("new"), "cls": cls, "tag": wone_of(st.none(), st.integers(0, 5)),
                                "tagtype": st.sampled_from(["int", "enum", "bool", "numpy"])}),
         st.fixed_dictionaries({"op": st.just("inst_add"), "i": st.integers(0, 9), "t": t}),
-        st.fixed_dictionaries({"op": st.just("subclass"), "cls": cls}),
+        st.fixed_dictionaries({"op": st.just("subclass"), "cls": cls, "clone": st.sampled_from([0, 0, 1])}),
         st.fixed_dictionaries({"op": st.just("fill_cc"), "cls": cls}),
         st.fixed_dictionaries({"op": st.just("fill_inst"), "i": st.integers(0, 9)}),
     )
-    return st.fixed_dictionaries({
+    return with_done(st.fixed_dictionaries({
         "classes": st.lists(wone_of(st.just(-1), st.just(-1), st.integers(0, 9)), min_size=2, max_size=7),
         "shared": st.integers(0, 3).map(lambda v: v == 0), "one_body": st.sampled_from([False, False, True]),
         "ops": wone_of(st.lists(ops, min_size=1, max_size=40), sized_lists(ops, 6, 40), sized_lists(ops, 6, 40)),
-    })
+    }))
